@@ -251,6 +251,13 @@ def errpos (j : Json) : Json := Id.run do
       | some lc =>
         if J.int a[2]! != lc.ln || J.int a[3]! != lc.col then
           return J.obj [("id", id), ("agree", true), ("spec", false), ("note", s!"chain position {J.int a[1]!}: line/column {J.int a[2]!}:{J.int a[3]!} are not those of the offset ({lc.ln}:{lc.col})")]
+    -- the rendering of the real error: `file:ln:col: message` and one `file:ln:col:` line per outer call site
+    let ej := J.get j "err"
+    if !J.isNull (J.get ej "text") then
+      let pe : Platypus.ErrChain.PlE :=
+        ⟨chain.map fun c => let a := J.arr c; ⟨J.hx a[0]!, J.int a[2]!, J.int a[3]!, J.int a[1]!⟩, J.hx (J.get ej "msgx")⟩
+      if J.hx (J.get ej "text") != pe.render then
+        return J.obj [("id", id), ("agree", true), ("spec", false), ("note", s!"the error renders as {J.str (J.get ej "text")} (hex), not as file:ln:col: message plus one line per call site")]
     return J.obj [("id", id), ("agree", true), ("spec", true), ("note", "")]
 
 /-! ### error chain objects (kind `chainops`) -/
